@@ -1000,9 +1000,123 @@ def option_hygiene(model: Model, fc: FnCls, R: RuleResult) -> int:
     return n
 
 
-def hygiene_rules(model: Model, fc: FnCls, prop: str, min_copies: int = 1, min_opt: int = 2) -> List[RuleResult]:
+def hygiene_rules(model: Model, fc: FnCls, prop: str, min_copies: int = 1, min_opt: int = 2, min_conv: int = 0, min_idx: int = 0) -> List[RuleResult]:
     R9 = RuleResult(prop, "AC9", "differentiable copies in backward stay connected to the graph (clone, not detach) when the backward is recorded", min_instances=min_copies)
     RO = RuleResult(prop, "OPT", "backward options: set_default_option(forward options, bck_options); caller's dict never mutated", min_instances=min_opt)
     ac9_connected_copies(fc, R9)
     option_hygiene(model, fc, RO)
-    return [R9, RO]
+    RC = RuleResult(prop, "AC4c", "None -> zeros conversion is shaped like the very list the gradients were taken w.r.t.", min_instances=min_conv)
+    RX = RuleResult(prop, "AC10", "the explicit-parameter count slices only lists in the full argument space (never tensor-only lists)", min_instances=min_idx)
+    ac4_conversion_reference(fc, RC)
+    ac10_index_space(fc, RX)
+    return [R9, RO, RC, RX]
+
+
+# ---------------------------------------------------------------------------------------------------- AC4c / AC10
+def ac4_conversion_reference(fc: FnCls, R: RuleResult) -> int:
+    """convert_none_grads_to_zeros(g, ref): the zeros replacing None gradients are shaped like `ref`; `ref` must therefore be the
+    very list the gradients were taken with respect to (the `inputs` of the autograd.grad that produced g)."""
+    n = 0
+    mod = fc.backward.module
+    for f in mod.functions.values():
+        if not (f is fc.backward or f.qualname.startswith(fc.backward.qualname + ".")):
+            continue
+        defs = function_defs(f.node)
+        for c in own_nodes(f.node):
+            if isinstance(c, ast.Call) and ast.unparse(c.func).split(".")[-1] == "convert_none_grads_to_zeros" and len(c.args) == 2:
+                g, ref = c.args
+                n += 1
+                src = None
+                if isinstance(g, ast.Name):
+                    for d in defs.get(g.id, []):
+                        if isinstance(d, ast.Call) and is_autograd_grad(d):
+                            src = d
+                inp = None
+                if src is not None:
+                    inp = _kw(src, "inputs") or (src.args[1] if len(src.args) > 1 else None)
+                what = "convert_none_grads_to_zeros(%s, %s) after autograd.grad(.., inputs=%s)" % (ast.unparse(g), ast.unparse(ref), ast.unparse(inp) if inp is not None else "?")
+                if inp is not None and ast.unparse(inp) == ast.unparse(ref):
+                    R.ok(f.fq, what)
+                else:
+                    R.bad(f, enclosing_stmt(c), "the zero gradients are shaped like `%s`, but the gradients were taken w.r.t. `%s`: an unused tensor gets a zero of the "
+                          "wrong shape (or an index error) whenever the two lists differ" % (ast.unparse(ref), ast.unparse(inp) if inp is not None else "?"), what=what)
+    return n
+
+
+TENSOR_SPACE_SOURCES = ("saved_tensors", "get_tensor_params")
+FULL_SPACE_SOURCES = ("reconstruct_params",)
+
+
+def ac10_index_space(fc: FnCls, R: RuleResult) -> int:
+    """The count of explicit parameters (`nparams`, positions in the FULL argument list) may only slice lists that live in the full
+    argument space - forward's *allparams or the result of param_sep.reconstruct_params(..) - never a tensor-only list
+    (ctx.saved_tensors[..], get_tensor_params(), or copies of those), whose positions are shifted by every non-tensor argument."""
+    n = 0
+    mod = fc.backward.module
+    count_names = {"nparams", "nfparams", "npparams"} & (set(fc.fixed) | {"nparams", "nfparams", "npparams"})
+    fns = [f for f in mod.functions.values() if f is fc.backward or f is fc.forward or f.qualname.startswith(fc.backward.qualname + ".")]
+    # list space by name, flow-insensitive over backward and its closures (names are unique enough inside one backward)
+    space: Dict[str, str] = {}
+    if fc.vararg:
+        space[fc.vararg] = "full"
+    changed = True
+    it = 0
+    while changed and it < 6:
+        changed = False
+        it += 1
+        for f in fns:
+            for s in ast.walk(f.node):
+                if not (isinstance(s, ast.Assign) and len(s.targets) == 1 and isinstance(s.targets[0], ast.Name)):
+                    continue
+                nm, v = s.targets[0].id, s.value
+                sp = _space_of(v, space)
+                if sp is not None and space.get(nm) != sp:
+                    if nm in space and space[nm] != sp:
+                        space[nm] = "mixed"
+                    else:
+                        space[nm] = sp
+                    changed = True
+    for f in fns:
+        cn = {c for c in count_names}
+        # local aliases of the counts: nparams = ctx.nparams
+        for s in ast.walk(f.node):
+            if isinstance(s, ast.Assign) and len(s.targets) == 1 and isinstance(s.targets[0], ast.Name) and isinstance(s.value, ast.Attribute) \
+                    and s.value.attr in count_names:
+                cn.add(s.targets[0].id)
+        for sub in ast.walk(f.node):
+            if isinstance(sub, ast.Subscript) and isinstance(sub.slice, ast.Slice) and isinstance(sub.value, ast.Name):
+                used = {x.id for b in (sub.slice.lower, sub.slice.upper) if b is not None for x in ast.walk(b) if isinstance(x, ast.Name)}
+                if not (used & cn):
+                    continue
+                n += 1
+                sp = space.get(sub.value.id)
+                what = "%s in %s: `%s` lives in the %s argument space" % (ast.unparse(sub), f.qualname, sub.value.id, sp or "unknown")
+                if sp == "full":
+                    R.ok(f.fq, what)
+                elif sp in ("tensor", "mixed"):
+                    R.bad(f, enclosing_stmt(sub), "the explicit-parameter count slices a tensor-only list: positions are shifted by every non-tensor argument, "
+                          "so the user function receives the wrong arguments when params mixes tensors and non-tensors", what=what)
+                else:
+                    R.bad(f, enclosing_stmt(sub), "cannot establish that `%s` is in the full argument space before it is sliced by the parameter count" % sub.value.id, what=what)
+    return n
+
+
+def _space_of(v: ast.AST, space: Dict[str, str]) -> Optional[str]:
+    src = ast.unparse(v)
+    if isinstance(v, ast.Call):
+        fn = ast.unparse(v.func)
+        if fn.split(".")[-1] in FULL_SPACE_SOURCES:
+            return "full"
+        if fn.split(".")[-1] == "get_tensor_params":
+            return "tensor"
+        if fn in ("list", "tuple") and v.args:
+            return _space_of(v.args[0], space)
+    if "saved_tensors" in src and not isinstance(v, ast.Call):
+        return "tensor"
+    if isinstance(v, ast.Name):
+        return space.get(v.id)
+    if isinstance(v, ast.Subscript) and isinstance(v.value, ast.Name):
+        return space.get(v.value.id)
+    if isinstance(v, ast.ListComp) and len(v.generators) == 1 and isinstance(v.generators[0].iter, ast.Name):
+        return space.get(v.generators[0].iter.id)
+    return None
